@@ -1,6 +1,8 @@
 import Ptn.C18.Core
+import Ptn.C18.History
 import Ptn.Common.AnalysisExp
-/-! Property theorems for C18, part 2 (Mathlib); the schedule theorems are in `Core.lean`. -/
+/-! Property theorems for C18, part 2 (Mathlib); the schedule theorems are in `Core.lean`, the
+theorems on histories of the driver object (setters, reset, reruns) and on `times()` in `History.lean`. -/
 namespace Ptn.C18
 
 open Matrix NormedSpace in
